@@ -68,7 +68,7 @@ PROPS = {
     },
     "C17": {
         "relation": "Corr.CheckDkg.scheck (after every event applied to a real instance's process service - reply class, generation table (threshold, participants, contributors), accounts in the wallet - equal sstep_ev of Session.v) - ties the C17_* theorems to the code",
-        "trusted": ["the clock: the model's time is the measured millisecond at which each event starts; events are kept 120 ms clear of the expiry instant of the addressed generation", "the wallet library's refusal of an existing / unknown wallet is an input of the model (store_ok), predicted by the harness from the name", "peers are real instances driven by the harness (prepared together with the instance under test)", "BLS library"],
+        "trusted": ["the clock: the model's time is the measured millisecond at which each event starts; events are kept 250 ms clear of the expiry instant of the addressed generation", "the wallet library's refusal of an existing / unknown wallet is an input of the model (store_ok), predicted by the harness from the name", "peers are real instances driven by the harness (prepared together with the instance under test)", "BLS library"],
         "assumptions": ["C17_commit_needs_everyone is stated for contributions that all come from listed, distinct participants; the code compares counts (observation O2)"],
     },
     "C16": {
